@@ -30,7 +30,7 @@ def run(pid, tier, seed, procs=None):
         N = cfg['N_heavy'] + 1 if pid in ('C02', 'C11') else cfg['N_heavy']
     step_specs = []
     for kind, op in plan.steps_for(pid):
-        spec = {'kind': kind, 'op': op, 'N': N, 'timeout_ms': cfg['timeout_ms'], 'check_callbacks': pid == 'C18'}
+        spec = {'kind': kind, 'op': op, 'N': N, 'timeout_ms': cfg['timeout_ms'], 'check_callbacks': pid == 'C18', 'tags': plan.tags_for(pid)}
         if kind == 'key':
             spec['max_expired'] = cfg['max_expired']
         step_specs.append(spec)
@@ -40,7 +40,7 @@ def run(pid, tier, seed, procs=None):
     step_jobs = []
     for sp in step_specs:
         step_jobs += jobs.expand(sp, mir, seed)
-    hist_jobs = [{'mir': mir, 'kind': k, 'template': t, 'seed': seed, 'timeout_ms': cfg['timeout_ms']} for k, t in plan.histories_for(pid, tier)]
+    hist_jobs = [{'mir': mir, 'kind': k, 'template': t, 'seed': seed, 'timeout_ms': cfg['timeout_ms'], 'tags': plan.tags_for(pid)} for k, t in plan.histories_for(pid, tier)]
     common.log(f'[{pid}] {len(step_jobs)} step cubes, {len(hist_jobs)} history templates, N={N}, tier={tier}')
     all_jobs = [('step', j) for j in step_jobs] + [('hist', j) for j in hist_jobs]
     results = run_mixed(all_jobs, procs)
@@ -69,7 +69,7 @@ def run_mixed(all_jobs, procs=None):
 
 def finish(pid, tier, seed, t0, mirhash, mir_s, N, cfg, step_res, hist_res):
     tags = plan.tags_for(pid)
-    mine = lambda tag: any(tag.startswith(t) for t in tags)
+    mine = lambda tag: any(tag.startswith(t) for t in tags) or tag.startswith('C10:')     # a crash inside the property's own harness violates it too
     agg = jobs.merge_results(step_res)
     inconclusive = []
     # ---- collect step violations of this property
@@ -113,13 +113,13 @@ def finish(pid, tier, seed, t0, mirhash, mir_s, N, cfg, step_res, hist_res):
     for u in unconfirmed_hist:
         inconclusive.append(f'history counterexample for {u["tag"]} does not reproduce natively (encoding suspect): {json.dumps(u["history"])[:300]}')
     # ---- step violations must be confirmed by a replayed history with the same tag and operation
-    conf_keys = {(c['tag'], c['kind']) for c in confirmed}
+    conf_keys = {(c['kind'], c['op']) for c in confirmed}
     for kind, op, v in step_viol:
-        # C10 step tags are by obligation class (bounds/assert/panic/unwind); natively they show up as abort/panic/hang
-        if pid == 'C10':
-            ok = any(c['kind'] == kind for c in confirmed)
-        else:
-            ok = (v['tag'], kind) in conf_keys
+        # a step counterexample counts as confirmed when a replayed history violates the same property through the same operation
+        # (tags may differ in detail: e.g. obligation classes bounds/assert/unwind show up natively as abort/panic/hang)
+        ok = (kind, op) in conf_keys or (op == 'is_part_of_the_tree' and (kind, 'into_ordered_vec') in conf_keys) \
+            or (op in ('index_after', 'index_before') and (kind, 'pred_' + op[6:]) in conf_keys) \
+            or (op in ('delete_by_index', 'value_by_index', 'value_by_index_mut', 'first_index_less') and any(k2 == kind and o2.startswith('pred_') for k2, o2 in conf_keys))
         if not ok:
             inconclusive.append(f'step counterexample {v["tag"]} in {kind}::{op} (N={N}) is not confirmed by any replayed public-API history '
                                 f'within the history bound: pre-state may be unreachable (invariant too weak) or the bound too small; args={v.get("args")}')
